@@ -29,7 +29,7 @@ CLAIMED = {
         "differential testing; directory listing and file reads by the OS; listing order (sorted) is exercised end to end here and proved in C08.",
         "DESIGN.md section 5 C01"),
     "C15": (
-        "Coq proof (align mode of the Hasher model and of the entry list) + extracted-model correspondence + oracle search",
+        "Coq proof (align mode of the Hasher model and of the entry list; the pad-length expression REGENERATED from TorrentFile.assemble is the least gap to the next piece boundary and equals the model's, for every size) + extracted-model correspondence + oracle search",
         "Machine-checked proof, for every hash function, file list and piece length, that in align mode the model of Hasher hashes the "
         "stream in which each file is followed by zeros up to the next piece boundary, that the entry list of TorrentFile.assemble "
         "describes exactly that stream (each pad entry = the gap, 0 < gap < pl, after its file), that every payload file starts on a "
@@ -190,7 +190,7 @@ CLAIMED.update({
         "vs the extracted model (state of every path), match_v1 / match_v2 call sequences, Metadata(...) vs the extracted extract model; search: full snapshots of search roots, metafiles and pre-populated destinations, repeated rebuilds.",
         RBTB + " sys.addaudithook reports every mutation Python code performs (cross-checked against snapshots each run).", "DESIGN.md section 5 C14"),
     "C16": (
-        "Coq proof (both checker models = zero-fill specification trace; matched/consumed are the exact sums; locality) + whole-trace correspondence + reference verifier",
+        "Coq proof (both checker models = zero-fill specification trace; matched/consumed are the exact sums; locality; the percentage expression REGENERATED from recheck.py evaluates in binary64 to the proved formula) + whole-trace correspondence + reference verifier",
         "Machine-checked proof, for all hash functions, layouts, piece lengths and disk states within the recorded lengths, that FeedChecker's and "
         "HashChecker's models yield exactly one entry per recorded piece with the specification's digest and size (full pieces pl, last piece the "
         "remainder; per file for v2), that Checker.iter_hashes' matched and consumed are the sums of matching and of all sizes, consumed = total, the "
@@ -240,7 +240,7 @@ CLAIMED.update({
         "modelled (the theorem starts from the (key, value) pairs); the documented option table as transcribed in Model/Routes.v and harness/props/c20.py.",
         "DESIGN.md section 5 C20"),
     "C08": (
-        "Coq proof (enumeration-order, outer-option, clock, location and path-spelling irrelevance of the creator models and of a lexical model of posixpath/pathlib) + extracted-model byte correspondence under controlled enumeration + metamorphic search",
+        "Coq proof (enumeration-order, outer-option, clock, location and path-spelling irrelevance of the creator models and of a lexical model of posixpath/pathlib; fail-closed static reading of the package REGENERATED every run: no set iteration and no unsorted listing on the creation path can reach an output) + extracted-model byte correspondence under controlled enumeration + metamorphic search",
         "Machine-checked proof, for all hash functions, trees (any enumeration order of every directory: node_perm), options and piece lengths, that each of "
         "the four creator models writes the same value whatever the enumeration order; that the info dictionary does not depend on trackers, web seeds, "
         "http seeds, creation date or created-by and the rest of the file differs at most in those top-level keys (two runs differ only in the creation "
